@@ -63,7 +63,7 @@ def run(ctx):
     ctx.rule = ("tables of 0-6 rows x 0-8 cells over an alphabet with empty cells, XML-special and non-ASCII characters, runs of equal cells, duplicate adjacent rows, "
                 "double blanks, tabs and line breaks; 1-3 sheets x requested sheet 1-4; written by an independent ODF encoder with every subset of the five optional "
                 "features {column runs, row runs, white-space elements, spans, paragraphs} and content.xml serialised as UTF-8 / UTF-16 with BOM / ISO-8859-1 with "
-                "character references; archives truncated at every 64th byte, content.xml cut at tag boundaries, non-zip files, missing content.xml, bad repeat "
+                "character references; archives truncated at every 64th byte, content.xml cut at tag boundaries, non-zip files (also ones that still end in a zip directory record), missing content.xml, runs of more than 1024 equal cells, bad repeat "
                 "counts; distinct = distinct (document, features, charset, sheet); non-trivial = document has at least one cell")
     n = 300 if ctx.tier == "quick" else 3000
     plain_alpha = ["", "a", "b", "x y", "<&>", "\"q'", "é", "€uro", "日本", "1", "0.5", "A"]
@@ -90,6 +90,9 @@ def run(ctx):
         for k, name in enumerate(FEATURES):
             f = {n_: (n_ == name) for n_ in FEATURES}
             cases.append((f, fixed_doc, 1, "utf-8"))
+        # long runs: more equal cells in a row than any fixed sheet width an implementation might assume
+        wide_doc = [[["w"] * 1500 + ["end"], [""] * 1100 + ["z"], ["a"] + ["b"] * 1025]]
+        cases.append(({n_: (n_ == "colRuns") for n_ in FEATURES}, wide_doc, 1, "utf-8"))
         ws_doc = [[["a  b", "t\tab", "l1\nl2"], ["x", "y", "z"]]]
         for combo in ({"whitespace"}, {"paragraphs"}, {"whitespace", "paragraphs"}):
             cases.append(({n_: (n_ in combo) for n_ in FEATURES}, [[["l1\nl2", "p"]]] if combo == {"paragraphs"} else ws_doc, 1, "utf-8"))
@@ -138,6 +141,12 @@ def run(ctx):
         for cut in range(0, len(blob), 64):
             faults["truncated@%d" % cut] = blob[:cut]
         faults["not-a-zip"] = b"a,b\nc,d\n"
+        # files that still end in a zip end-of-central-directory record but are not readable archives
+        eocd = blob[blob.rfind(b"PK\x05\x06"):]
+        faults["text-with-zip-tail"] = b"a,b\nc,d\n" + eocd
+        cd_at = blob.rfind(b"PK\x01\x02")
+        faults["central-directory-overwritten"] = blob[:cd_at] + b"\x00" * 46 + blob[cd_at + 46:]
+        faults["middle-missing"] = blob[:len(blob) // 3] + blob[len(blob) // 2:]
         faults["empty-file"] = b""
         for name, data in faults.items():
             path = os.path.join(tmp, "fault.ods")
